@@ -4,7 +4,8 @@
 From Coq Require Import List Arith NArith ZArith Bool Lia.
 Import ListNotations.
 Require Import PV.Pos.Model PV.Pos.Spec PV.Pos.BasicProofs.
-Require Import PV.Front.Shape PV.Front.ShapeFacts PV.Front.Consume PV.Front.UnescapeProofs.
+Require Import PV.Front.Shape PV.Front.ShapeFacts PV.Front.Consume PV.Front.UnescapeProofs PV.Front.PrattFacts.
+Require PV.Pratt.Syntax PV.Pratt.Model.
 Open Scope list_scope.
 
 Ltac inv_matches :=
@@ -527,3 +528,196 @@ Proof.
     apply ceq_eq in Lx. subst c. rewrite tail1_ok by reflexivity.
     apply G; [lia|]. cbn. repeat split; [eapply span_ok_l; eauto|lia|lia].
 Qed.
+
+(* ---- the children of an `expression`: choice_operator? term (infix term)* *)
+Definition infix_rule (r : mrule) : Prop := r = r_sequence_operator \/ r = r_choice_operator.
+(* term (infix term)* *)
+Inductive alternating : list tok -> Prop :=
+| alt_one t : trule t = r_term -> alternating [t]
+| alt_more t o l : trule t = r_term -> infix_rule (trule o) -> alternating l -> alternating (t :: o :: l).
+
+Lemma expression_shape kids : matches (rule_re r_expression) (word kids) ->
+  exists lead body, kids = lead ++ body /\ (lead = [] \/ exists c, lead = [c] /\ trule c = r_choice_operator) /\ alternating body.
+Proof.
+  intros M. cbn [rule_re cat] in M.
+  apply inv_cat in M as (u1 & w1 & E1 & M1 & M). apply inv_cat in M as (u2 & u3 & E2 & M2 & M3). subst w1.
+  destruct (word_eq_app _ _ _ E1) as (l1 & r1 & -> & W1 & E1'). destruct (word_eq_app _ _ _ E1') as (l2 & l3 & -> & W2 & W3).
+  subst. clear E1 E1'. exists l1, (l2 ++ l3). split; [reflexivity|]. split.
+  - unfold ROpt, sy in M1. inv_matches; subst; [right|left]; inv_word_auto; eauto.
+  - unfold sy in M2. apply inv_sym in M2. inv_word M2. cbn [app].
+    apply (inv_star_pairs (RCat re_infix (sy r_term))) in M3.
+    + destruct M3 as (ps & E & F). revert k Hk l3 E. induction F as [|[o t] ps Hp F IH]; intros k Hk l3 E.
+      * cbn in E. apply word_eq_nil in E. subst. constructor. exact Hk.
+      * cbn [flat_map fst snd app] in E. cbn [fst snd] in Hp.
+        destruct (word_eq_cons _ _ _ E) as (ko & l' & -> & Ho & E').
+        destruct (word_eq_cons _ _ _ E') as (kt & l'' & -> & Ht & E'').
+        apply inv_cat in Hp as (a & b & Eab & Ha & Hb). unfold re_infix, sy in Ha, Hb. cbn [alt] in Ha.
+        apply inv_sym in Hb. subst b.
+        assert (a = [o]) by (inv_matches; subst; cbn in Eab; inversion Eab; reflexivity). subst a.
+        cbn in Eab. inversion Eab; subst.
+        constructor; auto.
+        -- unfold infix_rule. inv_matches; match goal with H : [_] = [_] |- _ => inversion H end; subst; auto.
+    + intros u Hu. apply inv_cat in Hu as (a & b & -> & Ha & Hb). unfold re_infix, sy in Ha, Hb. cbn [alt] in Ha.
+      apply inv_sym in Hb. subst b. inv_matches; subst; cbn; eexists _, _; (split; [reflexivity|]);
+      (change [?x; ?y] with ([x] ++ [y]); constructor; [|constructor]); [apply m_alt_l|apply m_alt_r]; constructor.
+Qed.
+
+Lemma alternating_wf l : alternating l -> Syntax.well_formed pratt_table (ptoks l) = true.
+Proof.
+  unfold Syntax.well_formed. induction 1 as [t Ht|t o l Ht Ho A IH].
+  - cbn [ptoks map Syntax.wf fst]. rewrite pratt_table_spec, Ht. reflexivity.
+  - cbn [ptoks map Syntax.wf fst]. rewrite (pratt_table_spec (mrule_code (trule t))), Ht.
+    cbn [mrule_code Nat.eqb]. rewrite (pratt_table_spec (mrule_code (trule o))). destruct Ho as [-> | ->]; cbn [mrule_code Nat.eqb]; exact IH.
+Qed.
+Lemma alternating_rules l : alternating l -> Forall (fun k => trule k = r_term \/ infix_rule (trule k)) l.
+Proof. induction 1; repeat (constructor; auto). Qed.
+
+Lemma kids_ok_app : forall l1 l2 lo hi, kids_ok text lo hi (l1 ++ l2) ->
+  exists mid, kids_ok text lo mid l1 /\ kids_ok text mid hi l2.
+Proof.
+  induction l1 as [|k l1 IH]; intros l2 lo hi H.
+  - exists lo. cbn. split; [lia|exact H].
+  - cbn in H. destruct H as (H1 & H2 & H3). destruct (IH _ _ _ H3) as (mid & A & B).
+    exists mid. cbn. auto.
+Qed.
+
+Lemma code_inj a b : mrule_code a = mrule_code b -> a = b.
+Proof. intros H. apply mrule_eqb_eq. unfold mrule_eqb. now rewrite H, Nat.eqb_refl. Qed.
+
+Lemma ev_good rec : rec_good rec -> forall t lo hi,
+  kind_ok pratt_table t -> kids_ok text lo hi (map snd (Syntax.yield t)) ->
+  Forall (fun a => fst a = mrule_code (trule (snd a)) /\ (trule (snd a) = r_term \/ infix_rule (trule (snd a)))) (Syntax.yield t) ->
+  good lo hi (ev fl text rec t).
+Proof.
+  intros RG. induction t as [a|o t IH|t IH o|l IHl o r IHr]; intros lo hi K Y F; cbn [kind_ok] in K; try contradiction.
+  - cbn [Syntax.yield map] in *. inversion F as [|? ? (Fc & Fr) _]; subst.
+    destruct Y as (Y1 & Y2 & Y3). cbn [ev].
+    assert (R : trule (snd a) = r_term).
+    { destruct Fr as [R|R]; [exact R|]. exfalso.
+      assert (K' : pratt_table (mrule_code (trule (snd a))) = None).
+      { replace (mrule_code (trule (snd a))) with (fst a) by exact Fc. exact K. }
+      apply (proj2 (pratt_table_op (snd a))); auto. }
+    eapply good_weaken; [| |apply un_term_good; auto]; [lia|cbn in Y3; lia].
+  - destruct K as (Kl & Kr & s & p & Ko). cbn [Syntax.yield] in *. rewrite map_app in Y. cbn [map] in Y.
+    apply Forall_app in F as [Fl F]. inversion F as [|? ? (Fc & Fr) Fr']; subst.
+    destruct (kids_ok_app _ _ _ _ Y) as (mid & Yl & Yr). cbn [kids_ok] in Yr. destruct Yr as (Y1 & Y2 & Y3).
+    pose proof (tok_span _ Y2) as So. pose proof (span_ok_le _ _ So).
+    specialize (IHl lo mid Kl Yl Fl). specialize (IHr (tend (snd o)) hi Kr Y3 Fr').
+    cbn [ev]. destruct (ev fl text rec l) as [nl| | |], (ev fl text rec r) as [nr| | |]; cbn [good] in *; auto; try contradiction.
+    destruct IHl as (L1 & L2 & L3), IHr as (R1 & R2 & R3).
+    pose proof (node_ok_span _ L1) as Sl. pose proof (node_ok_span _ R1) as Sr.
+    pose proof (span_ok_le _ _ Sl). pose proof (span_ok_le _ _ Sr).
+    assert (SP : span_ok text (nstart nl) (nend nr)) by (apply span_ok_mk; [eapply span_ok_l; eauto|eapply span_ok_r; eauto|lia]).
+    assert (OP : infix_rule (trule (snd o))).
+    { apply pratt_table_op. replace (mrule_code (trule (snd o))) with (fst o) by exact Fc.
+      intros X. assert (X' : pratt_table (fst o) = None) by exact X. rewrite Ko in X'. discriminate. }
+    unfold infix_node. destruct OP as [-> | ->]; cbn; repeat split; auto; lia.
+Qed.
+
+Lemma ptoks_snd l : map snd (ptoks l) = l.
+Proof. unfold ptoks. rewrite map_map. cbn. apply map_id. Qed.
+Lemma alternating_head l : alternating l -> exists t r, l = t :: r /\ trule t = r_term.
+Proof. destruct 1; eauto. Qed.
+
+Lemma body_good rec body lo hi : rec_good rec -> alternating body -> kids_ok text lo hi body ->
+  good lo hi match Model.pratt_parse pratt_maps pratt_table (ptoks body) with
+             | Syntax.Ok t _ => ev fl text rec t
+             | Syntax.Panic _ => OPanic
+             | Syntax.OutOfFuel => OFuel
+             end.
+Proof.
+  intros RG A K. destruct (pratt_ok (ptoks body) (alternating_wf _ A)) as (t & E & Y & KO).
+  rewrite E. apply ev_good; auto.
+  - rewrite Y, ptoks_snd. exact K.
+  - rewrite Y. unfold ptoks. apply Forall_map. cbn [fst snd]. eapply Forall_impl; [|apply alternating_rules; exact A].
+    cbn. intros a Ha. auto.
+Qed.
+
+Lemma cexpr_body_good rec : rec_good rec -> rec_good (cexpr_body fl text rec).
+Proof.
+  intros RG kids lo hi K M. unfold cexpr_body. rewrite Hcho.
+  destruct (expression_shape _ M) as (lead & body & -> & L & A).
+  destruct (alternating_head _ A) as (t & r & Eb & Ht).
+  assert (S : exists lo', lo <= lo' /\ kids_ok text lo' hi body /\ skip_choice (lead ++ body) = body).
+  { destruct L as [->|(c & -> & Hc)]; cbn [app] in *.
+    - exists lo. repeat split; auto. subst body. cbn. rewrite is_rule_false; [reflexivity|]. rewrite Ht. discriminate.
+    - destruct K as (K1 & K2 & K3). pose proof (tok_span _ K2) as Sc. pose proof (span_ok_le _ _ Sc).
+      exists (tend c). repeat split; auto; [lia|]. cbn. rewrite (proj2 (is_rule_true _ _) Hc). reflexivity. }
+  destruct S as (lo' & L1 & K' & ->).
+  eapply good_weaken; [exact L1|apply le_n|]. apply body_good; auto.
+Qed.
+
+Theorem cexpr_good : forall d, rec_good (cexpr fl text d).
+Proof.
+  induction d as [|d IH].
+  - intros kids lo hi _ _. exact I.
+  - cbn [cexpr]. apply cexpr_body_good. exact IH.
+Qed.
+
+(* ---- rules *)
+Definition rule_ok (r : prule) : Prop := span_ok text (fst (pspan r)) (snd (pspan r)) /\ node_ok (pbody r).
+
+Lemma grammar_rule_shape kids : matches (rule_re r_grammar_rule) (word kids) ->
+  (exists d, kids = [d] /\ trule d = r_line_doc) \/
+  (exists nm a m ob x cb, kids = nm :: a :: m ++ [ob; x; cb] /\ trule nm = r_identifier /\ trule ob = r_opening_brace /\
+     trule x = r_expression /\
+     (m = [] \/ exists k, m = [k] /\ (trule k = r_silent_modifier \/ trule k = r_atomic_modifier \/
+                                      trule k = r_compound_atomic_modifier \/ trule k = r_non_atomic_modifier))).
+Proof.
+  intros M. cbn [rule_re cat] in M. unfold ROpt, re_modifier in M. cbn [alt] in M. unfold sy in M.
+  inv_matches; subst; cbn [app] in *; inv_word_auto.
+  1-4: right; exists k, k0, [k1], k2, k3, k4; repeat split; auto; right; eexists; split; [reflexivity|]; tauto.
+  - right. exists k, k0, [], k1, k2, k3. repeat split; auto.
+  - left. eauto.
+Qed.
+
+Lemma consume_rule_good d t : tok_okb text t = true -> trule t = r_grammar_rule ->
+  (forall k l, tkids t = k :: l -> trule k <> r_line_doc) ->
+  out_ok rule_ok (consume_rule fl text d t).
+Proof.
+  intros H R NL. destruct (tok_kids _ H) as [M K]. rewrite R in M.
+  unfold consume_rule. remember (tkids t) as ks eqn:Eks.
+  destruct (grammar_rule_shape _ M) as [(dk & -> & Hd)|(nm & a & m & ob & x & cb & -> & Hnm & Hob & Hx & Hm)].
+  - exfalso. eapply NL; eauto.
+  - clear NL Eks. cbn [kids_ok] in K. destruct K as (A1 & Knm & A2 & Ka & K).
+    destruct (tok_as_str _ Knm) as (name & -> & _).
+    assert (BODY : forall ty rest lo, rest = [ob; x; cb] -> kids_ok text lo (tend t) rest ->
+              out_ok rule_ok (obind (ODone (ty, rest)) (fun tr : rtype * list tok => let '(ty, rest) := tr in
+                 match rest with
+                 | _ :: x :: _ =>
+                     obind (if fix_choice fl then ODone (tkids x)
+                            else match tkids x with [] => OPanic | k :: r => if is_rule r_choice_operator k then ODone r else ODone (tkids x) end)
+                       (fun ks => obind (cexpr fl text d ks) (fun node => ODone {| pname := name; pspan := tspan nm; pty := ty; pbody := node |}))
+                 | _ => OPanic
+                 end))).
+    { intros ty rest lo -> KK. cbn [obind]. rewrite Hcho. cbn [obind]. cbn [kids_ok] in KK. destruct KK as (_ & _ & _ & Kx & _).
+      destruct (tok_kids _ Kx) as [Mx KKx]. rewrite Hx in Mx.
+      pose proof (cexpr_good d _ _ _ KKx Mx) as G.
+      destruct (cexpr fl text d (tkids x)) as [n| | |]; cbn [obind out_ok good] in *; auto.
+      split; [cbn; apply tok_span; exact Knm|cbn; tauto]. }
+    destruct Hm as [->|(k & -> & Hk)]; cbn [app] in *.
+    + rewrite (proj2 (is_rule_true _ _) Hob). cbn [negb]. eapply BODY; [reflexivity|exact K].
+    + rewrite is_rule_false by (destruct Hk as [E|[E|[E|E]]]; rewrite E; discriminate). cbn [negb].
+      cbn [kids_ok] in K. destruct K as (B1 & Kk & K).
+      destruct Hk as [E|[E|[E|E]]]; rewrite E; (eapply BODY; [reflexivity|exact K]).
+Qed.
+
+Lemma kids_all_ok : forall l lo hi, kids_ok text lo hi l -> Forall (fun k => tok_okb text k = true) l.
+Proof. induction l; cbn; intros lo hi H; constructor; [tauto|]. destruct H as (_ & _ & H). eauto. Qed.
+
+Lemma consume_rules_good d : forall f, Forall (fun k => tok_okb text k = true) f ->
+  out_ok (Forall rule_ok) (consume_rules_with_spans fl text d f).
+Proof.
+  induction f as [|t f IH]; intros F; [cbn; constructor|]. inversion F as [|? ? Ft Ff]; subst. specialize (IH Ff).
+  cbn [consume_rules_with_spans]. destruct (is_rule r_grammar_rule t) eqn:R; [|exact IH]. apply is_rule_true in R.
+  destruct (tok_kids _ Ft) as [M K]. rewrite R in M.
+  destruct (tkids t) as [|k l] eqn:Ek.
+  - exfalso. destruct (grammar_rule_shape _ M) as [(dk & E & _)|(nm & a & m & ob & x & cb & E & _)]; discriminate.
+  - destruct (is_rule r_line_doc k) eqn:D; [exact IH|].
+    assert (NL : forall k' l', tkids t = k' :: l' -> trule k' <> r_line_doc).
+    { intros k' l' E. rewrite Ek in E. inversion E; subst. intros X. apply is_rule_true in X. congruence. }
+    pose proof (consume_rule_good d t Ft R NL) as G.
+    destruct (consume_rule fl text d t) as [r| | |]; cbn [obind out_ok] in *; auto.
+    destruct (consume_rules_with_spans fl text d f) as [rs| | |]; cbn [obind out_ok] in *; auto.
+Qed.
+End P.
